@@ -27,6 +27,9 @@ pub open spec fn s_div(a: Sc, b: Sc) -> Sc { sc(a@ / b@) }
 pub open spec fn s_neg(a: Sc) -> Sc { sc(0real - a@) }
 pub uninterp spec fn r_rem(a: real, b: real) -> real;
 pub open spec fn s_rem(a: Sc, b: Sc) -> Sc { sc(r_rem(a@, b@)) }
+// commutativity by trigger (used through `broadcast use` inside function bodies; see emit.rewrite_body)
+pub broadcast proof fn s_mul_comm(a: Sc, b: Sc) ensures #[trigger] s_mul(a, b) == s_mul(b, a) { assert(a@ * b@ == b@ * a@) by(nonlinear_arith); }
+pub broadcast proof fn s_add_comm(a: Sc, b: Sc) ensures #[trigger] s_add(a, b) == s_add(b, a) { }
 pub open spec fn s_eq(a: Sc, b: Sc) -> bool { a@ == b@ }
 pub open spec fn s_lt(a: Sc, b: Sc) -> bool { a@ < b@ }
 pub open spec fn s_le(a: Sc, b: Sc) -> bool { a@ <= b@ }
@@ -136,6 +139,21 @@ impl Sc {
     #[verifier::external_body] pub fn const_pi_over_180() -> (r: Sc) ensures r@ == r_pi() / 180real { unimplemented!() }
     #[verifier::external_body] pub fn const_two_pi() -> (r: Sc) ensures r@ == r_pi() * 2real { unimplemented!() }
 }
+// rule R5: a compile-time constant of the crate (`cast(<float constant expression>)`): the model scalar holding exactly that real
+pub fn sc_const(Ghost(v): Ghost<real>) -> (r: Sc) ensures r@ == v { Sc { g: Ghost(v) } }
+// num_traits::cast from an integer type into the scalar: exact (A1: rounding of large integers to S is not modelled)
+pub trait IntSrc: Sized { spec fn to_real(self) -> real; }
+impl IntSrc for u8 { open spec fn to_real(self) -> real { self as int as real } }
+impl IntSrc for u16 { open spec fn to_real(self) -> real { self as int as real } }
+impl IntSrc for u32 { open spec fn to_real(self) -> real { self as int as real } }
+impl IntSrc for u64 { open spec fn to_real(self) -> real { self as int as real } }
+impl IntSrc for usize { open spec fn to_real(self) -> real { self as int as real } }
+impl IntSrc for i8 { open spec fn to_real(self) -> real { self as int as real } }
+impl IntSrc for i16 { open spec fn to_real(self) -> real { self as int as real } }
+impl IntSrc for i32 { open spec fn to_real(self) -> real { self as int as real } }
+impl IntSrc for i64 { open spec fn to_real(self) -> real { self as int as real } }
+impl IntSrc for isize { open spec fn to_real(self) -> real { self as int as real } }
+#[verifier::external_body] pub fn cast<T: IntSrc>(x: T) -> (r: Option<Sc>) ensures r == Some(sc(x.to_real())) { unimplemented!() }
 // `Float::sqrt(x)` path form
 pub struct Float {}
 impl Float {
